@@ -11,7 +11,7 @@ from typing import List
 
 from bounded import isolated
 from props import C01c
-from props.native_common import HELPERS, VALIDITY, add_native_functions, helper_jobs, native_assumptions, validity_jobs
+from props.native_common import HELPERS, VALIDITY, add_native_functions, helper_jobs, loader_jobs, native_assumptions, validity_jobs
 from vc.common import Report, main_wrapper, run_and_discharge
 
 PROP = 'C11'
@@ -20,7 +20,8 @@ PROP = 'C11'
 def jobs(tier: str) -> List[tuple]:
     th = tier == 'thorough'
     js = helper_jobs(C01c.WIDTHS if th else (8, 64))
-    js += validity_jobs()  # the segment-list loops: every segments[i] access inside the list (incl. the merge loop's stores)
+    js += validity_jobs()
+    js += loader_jobs(C01c.WIDTHS if th else (64,))  # the segment-list loops: every segments[i] access inside the list (incl. the merge loop's stores)
     for w in (C01c.WIDTHS if th else (64,)):
         js.append((C01c.unit_loop, ('run_flat_loop_impl', w, 0)))
     if th:
@@ -36,6 +37,7 @@ def body(tier: str, seed: int) -> int:
     safety = [r for r in results if any(t in r.name for t in (':bounds.', ':ub.', ':nonnull.'))]
     rep.extra['memory_safety_obligations'] = len(safety)
     rep.extra['memory_safety_discharged'] = sum(1 for r in safety if r.status == 'proved')
+    add_native_functions(rep, ('Memory_set_words',), 'bulk load before the storage decision (page-backed): loop invariant absM = entry memory + first i items masked; Rep; reference balance')
     add_native_functions(rep, VALIDITY + ('Memory_add_segment',), 'segment-list functions: index obligations on every segments[i] access, from the list invariant count <= capacity')
     add_native_functions(rep, ('run_flat_loop_impl', 'run_paged_loop_impl') + HELPERS, 'quick: helpers at w=8,64 + flat loop w=64; thorough: all widths, all loops')
     native_assumptions(rep)
